@@ -2,7 +2,7 @@
 
     // C11 — that every recursive edge of the VM goes through push_frame / incr_depth is G-VM. BOUNDED native stand-in:
     // recursive program shapes x recursion limits on the real engine, counting the depth actually reached.
-//# ob name=recursion_box_native role=native_bounded fn=vm::{eval_macro,perform_include,push_loop,call_block}+Environment::set_recursion_limit kind=bounded bound="23 recursive program shapes (every form of the include tag - name, one-element list, fallback list, ignore missing, variable / lazy / tuple list, computed name, through a macro, alternating templates -, import / from-import of the own template, recursion after a completed helper call or call block, self-recursive macro, mutually recursive macros, call-block cycle, self-include, include through a macro, recursive macro doing a completed include / import per level, higher-order macro recursion without closure, recursive for-loop over 600-deep data) x recursion limits {1, 7, 50, 137, 500, requested 100000 and usize::MAX}; run on a 1 GiB-stack thread, depth counted by a filter and cut at 700" stmt="unbounded run-time recursion ends with a 'recursion limit exceeded' error once the configured limit is reached: the number of nested levels entered never exceeds the limit (counted), the stored limit never exceeds 500, and no shape escapes the accounting"
+//# ob name=recursion_box_native role=native_bounded fn=vm::{eval_macro,perform_include,push_loop,call_block}+Environment::set_recursion_limit kind=bounded bound="28 recursive program shapes (recursive for loops re-entered directly, through an alias from inside a nested plain / filtered loop, from inside a with block, a set-block and with an else branch; (every form of the include tag - name, one-element list, fallback list, ignore missing, variable / lazy / tuple list, computed name, through a macro, alternating templates -, import / from-import of the own template, recursion after a completed helper call or call block, self-recursive macro, mutually recursive macros, call-block cycle, self-include, include through a macro, recursive macro doing a completed include / import per level, higher-order macro recursion without closure, recursive for-loop over 600-deep data) x recursion limits {1, 7, 50, 137, 500, requested 100000 and usize::MAX}; run on a 1 GiB-stack thread, depth counted by a filter and cut at 700" stmt="unbounded run-time recursion ends with a 'recursion limit exceeded' error once the configured limit is reached: the number of nested levels entered never exceeds the limit (counted), the stored limit never exceeds 500, and no shape escapes the accounting"
     fn recursion_box_native() {
         use crate::{Environment, Error, ErrorKind, State};
         #[derive(Default)]
@@ -37,6 +37,12 @@
             ("macro_with_import", "{% macro f(n) %}{{ n|tick }}{% from 'helpers' import h %}{{ h() }}{{ f(n + 1) }}{% endmacro %}{{ f(0) }}"),
             ("higher_order", "{% macro f(g) %}{{ 0|tick }}{{ g(g) }}{% endmacro %}{{ f(f) }}"),
             ("recursive_loop", "{% for x in data recursive %}{{ 0|tick }}{{ loop(x) }}{% endfor %}"),
+            // the recursive loop re-entered through an alias from inside a nested plain loop / with block / set-block
+            ("recursive_loop_alias_nested", "{% for x in data2 recursive %}{{ 0|tick }}{% set outer = loop %}{% for c in x %}{{ outer(c) }}{% endfor %}{% endfor %}"),
+            ("recursive_loop_alias_filtered", "{% for x in data2 recursive %}{{ 0|tick }}{% set outer = loop %}{% for c in x if c is sequence %}{{ outer(c) }}{% endfor %}{% endfor %}"),
+            ("recursive_loop_in_with", "{% for x in data recursive %}{{ 0|tick }}{% with y = x %}{{ loop(y) }}{% endwith %}{% endfor %}"),
+            ("recursive_loop_in_capture", "{% for x in data recursive %}{{ 0|tick }}{% set c %}{{ loop(x) }}{% endset %}{{ c }}{% endfor %}"),
+            ("recursive_loop_else", "{% for x in data recursive %}{{ 0|tick }}{{ loop(x) }}{% else %}e{% endfor %}"),
             // every form of the include / import tag as the recursive edge
             ("inc_list1", "{{ 0|tick }}{% include ['inc_list1'] %}"),
             ("inc_fallback", "{{ 0|tick }}{% include ['does-not-exist', 'inc_fallback'] %}"),
@@ -69,7 +75,7 @@
                 for (name, _) in shapes {
                     let tmpl = env.get_template(name).unwrap();
                     LEVELS.with(|l| l.set(0));
-                    let res = tmpl.render_captured(crate::context! { data => deep(600) });
+                    let res = tmpl.render_captured(crate::context! { data => deep(600), data2 => deep(1600) });
                     match res {
                         Ok(c) => panic!("{name} with limit {limit}: rendered {} bytes instead of hitting the recursion limit", c.output().len()),
                         Err(e) => {
